@@ -212,24 +212,16 @@ def _markers_from_inferred(expr: astroid.NodeNG, inferred: tuple) -> Iterator[To
                 return
 
 
-def _is_open_to_write(expr) -> bool:
-    for arg in expr.args:
-        if astroid is not None:  # pragma: no-astroid
-            if isinstance(arg, astroid.Const) and isinstance(arg.value, str) and 'w' in arg.value:
-                return True
-        if isinstance(arg, ast.Constant) and 'w' in str(arg.value):
-            return True
-
-    if not expr.keywords:
-        return False
-    for arg in expr.keywords:
-        if arg.arg != 'mode':
-            continue
-        inner = arg.value
-        if astroid is not None:  # pragma: no-astroid
-            if isinstance(inner, astroid.Const) and isinstance(inner.value, str) and 'w' in inner.value:
-                return True
-        if isinstance(inner, ast.Constant) and 'w' in str(inner.value):
+def _is_open_to_write(expr, mode_index: int = 1) -> bool:
+    # the mode is the second positional argument (the first one for `Path.open`)
+    # or the keyword `mode`; the file name says nothing about it
+    modes = list(expr.args[mode_index:mode_index + 1])
+    for arg in (expr.keywords or ()):
+        if arg.arg == 'mode':
+            modes.append(arg.value)
+    for mode in modes:
+        value = getattr(mode, 'value', None)
+        if isinstance(value, str) and set(value) & set('wax+'):
             return True
     return False
 
@@ -246,7 +238,7 @@ def _is_pathlib_write(expr) -> bool:
 
     # if it's open, check that mode is "w"
     if expr.func.attrname == 'open':
-        if not _is_open_to_write(expr):
+        if not _is_open_to_write(expr, mode_index=0):
             return False
 
     for value in infer(expr.func.expr):
